@@ -134,6 +134,13 @@ func (b *Buffer) Write(data []byte) (int, error) {
 	return len(data), nil
 }
 
+// setCheckStartOffset sets the offset that the next Write must start at.
+func (b *Buffer) setCheckStartOffset(offset int64) {
+	b.mu.Lock()
+	defer b.mu.Unlock()
+	b.checkStartOffset = offset
+}
+
 func newUUID() string {
 	buf := make([]byte, 32)
 	if _, err := rand.Read(buf); err != nil {
